@@ -19,7 +19,7 @@ import (
 func init() {
 	engines["c08"] = engineDef{
 		newEngine: func() Engine { return &c08Engine{} },
-		newGen:    func(r *RNG, tier string) Generator { return newC08Gen(r, tier) },
+		newGen:    func(r *RNG, tier string, profile string) Generator { return newC08Gen(r, tier) },
 	}
 }
 
